@@ -212,14 +212,15 @@ OB(x, y) == Ov(CB, <<x, y>>)
 OC(z) == Ov(CC, <<z>>)
 
 Atoms == {NONEv, I1, I2, F1, S1} \cup (IF Thorough THEN {Bv(1), Iv(3), Sv(2)} ELSE {})
-Lists1 == {Lv(<<>>), Lv(<<I1>>), Lv(<<I2>>), Lv(<<I1, I2>>), Lv(<<I1, I1>>), Lv(<<NONEv>>)}
-          \cup (IF Thorough THEN {Lv(<<I2, I1>>), Lv(<<F1>>), Lv(<<I1, NONEv>>), Lv(<<S1>>), Lv(<<I2, I2>>)} ELSE {})
-Dicts1 == {Dv(<<>>), D1(KA, I1), D1(KA, I2), D1(KB, I1), D2(KA, I1, KB, I2), D2(KB, I2, KA, I1), D2(KA, I1, KB, I1),
+Lists1 == {Lv(<<>>), Lv(<<I1>>), Lv(<<I2>>), Lv(<<I1, I2>>), Lv(<<NONEv>>)}
+          \cup (IF Thorough THEN {Lv(<<I1, I1>>), Lv(<<I2, I1>>), Lv(<<F1>>), Lv(<<I1, NONEv>>), Lv(<<S1>>), Lv(<<I2, I2>>)}
+                ELSE {})
+Dicts1 == {Dv(<<>>), D1(KA, I1), D1(KA, I2), D2(KA, I1, KB, I2), D2(KB, I2, KA, I1),
            D3(KA, I1, KB, I2, KC, I1), D3(KC, I1, KA, I1, KB, I2), D2(FX, I1, FY, I2), D1(FZ, I1)}
-          \cup (IF Thorough THEN {D2(KA, I2, KB, I2), D2(KB, I1, KA, I1), D3(KA, I1, KB, I2, KC, I2), D2(FY, I2, FX, I1),
+          \cup (IF Thorough THEN {D1(KB, I1), D2(KA, I1, KB, I1), D2(KA, I2, KB, I2), D2(KB, I1, KA, I1), D3(KA, I1, KB, I2, KC, I2), D2(FY, I2, FX, I1),
                                   D2(FX, I1, FY, I1), D1(KA, NONEv), D1(KC, I1), D3(KB, I2, KC, I1, KA, I1)} ELSE {})
-Objs1 == {OA(I1, I2), OA(I1, I1), OA(I2, I2), OA(NONEv, I2), OB(I1, I2), OB(I1, I1), OC(I1), OC(I2)}
-         \cup (IF Thorough THEN {OA(I2, I1), OB(I2, I2), OC(NONEv), OA(S1, F1), OB(NONEv, I2)} ELSE {})
+Objs1 == {OA(I1, I2), OA(I1, I1), OA(NONEv, I2), OB(I1, I2), OC(I1), OC(I2)}
+         \cup (IF Thorough THEN {OA(I2, I2), OB(I1, I1), OA(I2, I1), OB(I2, I2), OC(NONEv), OA(S1, F1), OB(NONEv, I2)} ELSE {})
 \* depth-1 containers that are nested once more
 Inner == {Lv(<<I1>>), Lv(<<I1, I2>>), D1(KA, I1), D2(KA, I1, KB, I2), D2(KB, I2, KA, I1), OA(I1, I2), OC(I1)}
          \cup (IF Thorough THEN {Lv(<<>>), Lv(<<I2>>), Dv(<<>>), D1(KA, I2), OB(I1, I2), OA(I1, I1), OC(I2),
@@ -232,12 +233,11 @@ Dicts2 == {D1(KA, x) : x \in Inner} \cup {D2(KA, x, KB, I1) : x \in InnerSmall}
           \cup (IF Thorough THEN {D2(KB, I1, KA, x) : x \in InnerSmall} \cup {D2(KA, x, KB, y) : x \in InnerSmall, y \in InnerSmall}
                 ELSE {})
 Objs2 == {OA(x, I1) : x \in Inner} \cup {OA(I1, x) : x \in InnerSmall} \cup {OB(x, I1) : x \in InnerSmall}
-         \cup {OC(x) : x \in Inner}
+         \cup {OC(x) : x \in (IF Thorough THEN Inner ELSE InnerSmall)}
          \cup (IF Thorough THEN {OA(x, y) : x \in InnerSmall, y \in InnerSmall} \cup {OB(I1, x) : x \in InnerSmall} ELSE {})
 \* containers that also exist as pg.List / pg.Dict (everything below an object is symbolic anyway)
 PgToo == IF Thorough THEN Lists1 \cup Dicts1 \cup Lists2 \cup Dicts2
-         ELSE {Lv(<<>>), Lv(<<I1>>), Lv(<<I1, I2>>), Dv(<<>>), D1(KA, I1), D1(KA, I2), D2(KA, I1, KB, I2), D2(KB, I2, KA, I1),
-               D2(FX, I1, FY, I2)}
+         ELSE {Lv(<<>>), Lv(<<I1>>), Lv(<<I1, I2>>), Dv(<<>>), D1(KA, I1), D2(KA, I1, KB, I2), D2(KB, I2, KA, I1)}
               \cup {Lv(<<x>>) : x \in InnerSmall} \cup {D1(KA, x) : x \in InnerSmall}
 
 UEnt(v, pg) == [v |-> v, pg |-> pg]
